@@ -1100,9 +1100,11 @@ def run(tier, seed, replay=None):
         evaluations=calls + len(cases), distinct_nontrivial=len(distinct),
         rule="documents: 4 templates, every sample (minus %s: ~10^6 declared rows), %d generated text documents and %d generated sheets with trailing empty / repeated rows and cells; "
              "objects per document: the document, body, meta, styles/content/manifest/settings parts, the first tables (first and last row, first cell), the first element(s) of every tag; "
-             "per object: every property + every zero-argument method whose name matches the read pattern + the explicit argument list; every call twice, then again in %d shuffled order(s); snapshot compared after EVERY call. "
+             "plus %d raw-XML text documents and %d raw-XML sheets NOT in odfdo's canonical shape (double spaces / tabs / newlines in text nodes, space before a span, blank spans, tight and padded ragged tables with explicit trailing empty cells); "
+             "per object: every property + every method whose name matches the read pattern, with standard arguments for required parameters and with every boolean keyword flipped one at a time + the explicit argument list; every call twice, then again in %d shuffled order(s); snapshot compared after EVERY call. "
              "distinct_nontrivial = distinct (class, entry point) pairs that returned normally at least once"
-             % (sorted(BIG), sum(1 for s in srcs if s["id"].startswith("generated:text")), sum(1 for s in srcs if s["id"].startswith("generated:sheet")), 1 if tier == "quick" else 2),
+             % (sorted(BIG), sum(1 for s in srcs if s["id"].startswith("generated:text")), sum(1 for s in srcs if s["id"].startswith("generated:sheet")),
+                sum(1 for s in srcs if s["id"].startswith("generated:rawtext")), sum(1 for s in srcs if s["id"].startswith("generated:rawsheet")), 1 if tier == "quick" else 2),
         samples=samples, documents=len(jobs), big_sheets_skipped=skipped_big, calls=calls, coq_cases=len(cases),
         objects_by_kind=dict(sorted(hist.items())), timeouts=sum(r["timeouts"] for r in results), reader_exceptions=sum(r["exceptions"] for r in results),
         slowest_documents=sorted(((r.get("cpu_s", 0), r["id"]) for r in results), reverse=True)[:5], documents_lost=lost, documents_cut_by_cpu_budget=[dict(document=r["id"], entries_done=r.get("entries_done"), entries=r["entries"]) for r in results if r.get("budget_exhausted")],
